@@ -203,6 +203,9 @@ func parseDirective(vars []RvInstruction, device bool) *RvDirective { //nolint:g
 			}
 
 		case RVExtRV:
+			if len(v.Value) == 0 {
+				continue // malformed: ArrayShift panics on empty input
+			}
 			mech, args := cbor.ArrayShift(v.Value)
 			if len(mech) > 0 {
 				if err := cbor.Unmarshal(mech, &dir.ExtMechanism); err == nil {
